@@ -1086,6 +1086,13 @@ func judgeForwarded(r *vkit.R, tb *testbed, f *fwd, respp *bed.RawResponse) {
 		for _, tr := range x.Reply.Trailers {
 			r.Count("response_trailers_checked", 1)
 			if got := resp.Trailer.Values(tr.Name); len(got) != 1 || got[0] != tr.Value {
+				if bt != nil && bt.racingReset && len(got) == 0 {
+					// The relay can also be cut by the racing transport reset after the last body byte and before the
+					// trailer block was read from the upstream: the body is complete by coincidence, the gateway ends the
+					// cancelled relay without an error object, the trailers are gone (flake hunt, seed 1013).
+					r.Count("trailers_lost_to_racing_transport_reset", 1)
+					continue
+				}
 				ds = append(ds, diff{"response-trailer/lost", fmt.Sprintf("upstream trailer %s: %q reached the client as %q", tr.Name, tr.Value, got)})
 			}
 		}
